@@ -22,26 +22,35 @@ from mc.runner import HarnessError, scratch_dir, stable_hash
 ID = "C29"
 LEVEL = "model_checking"
 EXHAUSTIVE = True
-CASE_TIMEOUT = 1500
-RULE = ("a configuration = (renaming scheme, multiset of concurrent runs, history "
-        "of earlier complete runs); every maximal schedule (sequence of thread ids, "
-        "one per file-system operation of rename_and_write) of every configuration "
-        "is executed once on the real psy.gen, enumerated by iterative preemption "
-        "bounding; a schedule is non-trivial when at least one run is preempted "
-        "between its first and last file-system operation (it is not a serial order "
-        "of the runs); distinct = distinct (configuration, thread-id sequence)")
+CASE_TIMEOUT = 2400
+RULE = ("a configuration = (renaming scheme, multiset of concurrent runs, history of "
+        "earlier complete runs); every maximal schedule (sequence of thread ids, one "
+        "per file-system operation that rename_and_write issues) of every "
+        "configuration is executed once on the real psy.gen, in order of preemption "
+        "count (iterative preemption bounding), in the transition system reduced by "
+        "two sound rules (operations on run-private state are not branched on; "
+        "identically typed runs start in index order); for two runs the unreduced "
+        "system is enumerated as well and must show the same observations; a "
+        "schedule is non-trivial when at least one run is preempted between its first "
+        "and last file-system operation (it is not a serial order of the runs); "
+        "distinct = distinct (configuration, thread-id sequence)")
 ASSUMPTIONS = [
-    "a PSyclone run (a process) is modelled by a thread that owns private PSy objects; "
-    "rename_and_write shares no Python-level state between runs (os.getpid() is "
-    "answered per run)",
+    "a PSyclone run (a process) is modelled by a thread that owns private PSy objects "
+    "rebuilt from source; rename_and_write shares no Python-level state between runs "
+    "(os.getpid() is answered per run); all runs of one execution share the Config "
+    "singleton, i.e. the same output directory and renaming scheme, as in the property",
     "one os.write / file.read call is atomic with respect to the other runs (the file "
     "is observed empty or complete, never half written)",
     "the code between two file-system operations of one run has no effect visible to "
     "other runs, so it is attributed to the preceding operation",
-    "identically typed concurrent runs are interchangeable before their first "
-    "file-system operation (symmetry reduction, only where bounds() says so)",
-    "runs of one execution share the Config singleton (same output directory and "
-    "renaming scheme for all of them, as in the property)",
+    "reduction 1: os.close of a descriptor the run opened itself, and operations whose "
+    "paths all carry the pid reported to that run, commute with every operation of "
+    "the other runs (that no run touches a path carrying another run's pid is checked "
+    "on every operation of every execution)",
+    "reduction 2: identically typed concurrent runs are interchangeable before their "
+    "first file-system operation",
+    "kernel texts: the text a run generates depends only on (kernel, transformation, "
+    "suffix); the reference text is taken from a solo sequential run of the real code",
 ]
 
 GOCEAN = "src/psyclone/tests/test_files/gocean1p0"
@@ -53,7 +62,9 @@ TYPES = {
     "B": {"alg": "single_invoke.f90", "trans": "omp", "kernels": [0],
           "variants": [("compute_cu", "omp")]},
     "C": {"alg": "single_invoke_two_kernels.f90", "trans": "acc", "kernels": [1],
-          "variants": [("time_smooth", "acc")]},
+          "variants": [("time_smooth", "acc")],
+          # the other kernel of this invoke is not transformed (never written)
+          "plain": [("compute_cu_mod", "compute_cu_code")]},
     "D": {"alg": "single_invoke_two_identical_kernels.f90", "trans": "acc",
           "kernels": [0, 1],
           "variants": [("compute_cu", "acc"), ("compute_cu", "acc")]},
@@ -64,37 +75,43 @@ VARIANTS = sorted(SOLO)
 
 # Each space: concurrent runs, histories (earlier complete runs), depth of the
 # blind schedule prefixes that split a configuration into work items, and
-#  red   : reductions on -- os.close (private descriptor) is executed without
-#          branching, identically typed runs start in index order;
 #  bound : only schedules with at most this many preemptions (None = all);
-#  budget: cap on executions per work item (None = none; hitting it clears
-#          EXHAUSTIVE and is reported);
-#  xcheck: the permutation-invariant set of observations of the reduced and
-#          the unreduced exploration of the same configuration must coincide.
-def _space(runs, hists, depth, red=False, bound=None, budget=None, xcheck=False):
-    return {"runs": runs, "hists": hists, "depth": depth, "red": red,
-            "bound": bound, "budget": budget, "xcheck": xcheck}
+#  budget: cap on executions per work item (None = none);
+#  full  : False = the space proper, explored with the sound reductions
+#          (operations on run-private state -- os.close of a private
+#          descriptor, files whose name carries the run's pid -- are executed
+#          without branching; identically typed runs start in index order).
+#          True = cross-check space: NO reduction at all, explored in order of
+#          preemption count until done or until the budget is used up; every
+#          observation (permutation-invariant digest of per-run outcome, PSy
+#          layer uses, final directory, verdict) made there must also have been
+#          made in the reduced exploration of the same configuration, and the
+#          two sets must be equal when the unreduced exploration completed.
+def _space(runs, hists, depth, full=False, bound=None, budget=None):
+    return {"runs": runs, "hists": hists, "depth": depth, "full": full,
+            "bound": bound, "budget": budget}
 
 
-H0, HA, HB = [], ["A"], ["B"]
+H0, HA, HB, HAB = [], ["A"], ["B"], ["A", "B"]
 SPACES = {
     "quick": [
         _space(["A", "B", "C", "D"], [H0, HA, HB], 0),
-        _space(["AA", "AB", "AC"], [H0, HA, HB], 2, xcheck=True),
-        _space(["AA", "AB", "AC"], [H0, HA, HB], 1, red=True, xcheck=True),
-        _space(["AD", "DD"], [H0, HA], 3, red=True),
-        _space(["AAA", "AAB"], [H0, HA], 2, red=True, bound=2),
+        _space(["AA", "AB"], [H0, HA, HB], 1),
+        _space(["AC"], [H0, HA], 1),
+        _space(["AD"], [H0, HA], 2),
+        _space(["DD"], [H0], 4),
+        _space(["AAA", "AAB"], [H0], 2),
+        _space(["AAA", "AAB"], [HA], 2, bound=2),
+        _space(["AA", "AB"], [H0, HA, HB], 2, full=True, budget=60),
     ],
     "thorough": [
-        _space(["A", "B", "C", "D"],
-               [H0, HA, HB, ["A", "A"], ["A", "B"], ["D"]], 0),
-        _space(["AA", "AB", "AC", "AD", "BD"],
-               [H0, HA, HB, ["A", "B"]], 3, xcheck=True),
-        _space(["AA", "AB", "AC", "AD", "BD"],
-               [H0, HA, HB, ["A", "B"]], 1, red=True, xcheck=True),
-        _space(["DD"], [H0, HA, HB], 4, red=True),
-        _space(["AAA", "AAB", "ABB", "ABC", "AAD", "ABD"], [H0, HA, HB], 4,
-               red=True, budget=6000),
+        _space(["A", "B", "C", "D"], [H0, HA, HB, ["A", "A"], HAB, ["D"]], 0),
+        _space(["AA", "AB", "AC", "AD", "BD"], [H0, HA, HB, HAB], 2),
+        _space(["DD"], [H0, HA], 4),
+        _space(["AAA", "AAB", "ABB", "ABC"], [H0, HA, HB], 4, budget=5000),
+        _space(["AAD"], [H0], 4, bound=4),
+        _space(["AA", "AB", "AC"], [H0, HA, HB, HAB], 2, full=True, budget=400),
+        _space(["AD", "BD"], [H0, HA], 4, full=True, budget=400),
     ],
 }
 SCHEMES = ["multiple", "single"]
@@ -104,7 +121,8 @@ def bounds(tier):
     out = {"schemes": SCHEMES, "spaces": [
         {"concurrent_runs": sp["runs"],
          "histories": ["".join(h) or "-" for h in sp["hists"]],
-         "blind_prefix_depth": sp["depth"], "reductions": sp["red"],
+         "blind_prefix_depth": sp["depth"],
+         "kind": ("unreduced cross-check" if sp["full"] else "reduced (sound)"),
          "max_preemptions": sp["bound"],
          "execution_budget_per_work_item": sp["budget"]}
         for sp in SPACES[tier]],
@@ -131,11 +149,11 @@ def cases(tier):
                                     for t in range(len(runs))]
                     for pre in prefixes:
                         spec = {"scheme": scheme, "runs": list(runs),
-                                "hist": list(hist), "sym": spc["red"],
-                                "por": spc["red"]}
+                                "hist": list(hist), "sym": not spc["full"],
+                                "por": not spc["full"]}
                         yield {"key": spec_key(spec) + "|p" + "".join(map(str, pre)),
                                "spec": spec, "prefix": pre, "bound": spc["bound"],
-                               "budget": spc["budget"], "xcheck": spc["xcheck"]}
+                               "budget": spc["budget"], "full": spc["full"]}
 
 
 def config_key(spec):
@@ -144,7 +162,7 @@ def config_key(spec):
 
 
 def spec_key(spec):
-    return config_key(spec) + ("/red" if spec.get("por") else "")
+    return config_key(spec) + ("" if spec.get("por") else "/unreduced")
 
 
 # ---------------------------------------------------------------------------
@@ -350,7 +368,9 @@ def judge(spec, rec, histfiles):
 
     uses = []
     for tid, out in enumerate(done):
-        uses.append([(m.lower(), r.lower()) for m, r in USE_RE.findall(out[1])]
+        plain = TYPES[runs[tid]].get("plain", [])
+        uses.append([(m.lower(), r.lower()) for m, r in USE_RE.findall(out[1])
+                     if (m.lower(), r.lower()) not in plain]
                     if out[0] == "ok" else None)
     # files that existed before the runs started must be unchanged
     for name, text in histfiles.items():
@@ -558,9 +578,11 @@ def run_case(case):
         res["transitions"] = info["nodes"] - 1
         res["validated"] = res["evals"]
         if info["budget_hit"]:
-            res["extra"]["incomplete"] = {case["key"]: info["bound_completed"]}
-        if case.get("xcheck"):
-            res["extra"]["xcheck " + spec_key(spec)] = sorted(digests)
+            res["extra"]["xcheck_incomplete" if case.get("full") else
+                         "incomplete"] = {case["key"]: info["bound_completed"]}
+        if len(spec["runs"]) == 2:
+            res["extra"][("xfull " if case.get("full") else "xred ")
+                         + config_key(spec)] = sorted(digests)
         # one schedule of this item is executed a second time from its
         # recorded thread-id list: the observations must be identical.
         sched, rec = last
@@ -584,6 +606,7 @@ def finish(_tier, totals):
     global EXHAUSTIVE  # pylint: disable=global-statement
     extra = totals["extra"]
     inc = extra.pop("incomplete", {})
+    xinc = extra.pop("xcheck_incomplete", {})
     by_pre = extra.get("by_preemptions", {})
     _FINISH_INFO["max_preemptions_seen"] = max([int(k) for k in by_pre] or [0])
     if inc:
@@ -591,21 +614,31 @@ def finish(_tier, totals):
         _FINISH_INFO["budget_hit_in_work_items"] = len(inc)
         _FINISH_INFO["preemption_bound_completed_in_all_of_them"] = \
             min(inc.values())
-    # reduced and unreduced exploration must have seen the same observations
-    full = {k[7:]: set(extra.pop(k)) for k in sorted(extra)
-            if k.startswith("xcheck ") and not k.endswith("/red")}
-    red = {k[7:-4]: set(extra.pop(k)) for k in sorted(extra)
-           if k.startswith("xcheck ") and k.endswith("/red")}
+    # unreduced versus reduced exploration of the same configuration
+    full = {k[6:]: set(extra.pop(k)) for k in sorted(extra)
+            if k.startswith("xfull ")}
+    red = {k[5:]: set(extra.pop(k)) for k in sorted(extra)
+           if k.startswith("xred ")}
+    partial = {}
+    for key, done in xinc.items():
+        cfg = key.split("/unreduced")[0]
+        partial[cfg] = min(done, partial.get(cfg, done))
     for cfg in sorted(set(full) & set(red)):
-        if full[cfg] != red[cfg]:
+        miss = full[cfg] - red[cfg]
+        if miss or (cfg not in partial and full[cfg] != red[cfg]):
             raise HarnessError(
                 f"reduction cross-check failed for {cfg}: unreduced exploration "
-                f"saw {len(full[cfg])} distinct observations, reduced "
-                f"{len(red[cfg])}, symmetric difference "
-                f"{sorted(full[cfg] ^ red[cfg])[:6]}")
-    return {"reduction_crosschecked_configurations": len(set(full) & set(red)),
+                f"({'complete' if cfg not in partial else 'partial'}) saw "
+                f"{len(full[cfg])} distinct observations, reduced "
+                f"{len(red[cfg])}; only unreduced: {sorted(miss)[:5]}, only "
+                f"reduced: {sorted(red[cfg] - full[cfg])[:5]}")
+    both = set(full) & set(red)
+    if partial:
+        _FINISH_INFO["unreduced_crosscheck_preemption_bound_completed"] = partial
+    return {"reduction_crosschecked_configurations": len(both),
+            "of_which_unreduced_exploration_complete": len(both - set(partial)),
             "distinct_observations_in_crosschecked": sum(
-                len(full[c]) for c in set(full) & set(red))}
+                len(red[c]) for c in both)}
 
 
 def replay(case):
